@@ -12,7 +12,7 @@ TRUSTED_BASE = [
     "for the properties with a regenerated model (evidence key coverage.regenerated_model): the translator tools/rsparse.py + tools/rs2v.py (Rust subset -> Gallina; "
     "table-driven, anything unknown is an error), the primitive mappings of coq/GenPrelude.v and coq/GenTreePrelude.v (std str / String / Vec / Option / Result / Cow primitives, "
     "serde_json / toml maps as sorted association lists, `token.to_index()` in callers as prim_to_index = the hand-written index_from_str on the encoded text (tied by Proofs/GenEquivIndexStr.v to the translated chain Token::to_index -> try_into -> TryFrom<&Token> for Index -> Index::from_str), `p.tokens()` in callers as the list str_tokens (tied to the translated Pointer::tokens / Tokens::next by Proofs/GenEquivPtrOps.v; std's str::split(char) = split_on and Iterator::next on it = head / tail remain primitive)), usize `+` as unbounded addition, "
-    "str::split_at is modelled with BOTH its panics (out of range, and off a char boundary by core's byte-level test); the char-boundary panics of `&s[a..b]` on str, String::insert / remove / split_off are not modelled (the crate only calls these at positions it has computed with find / rfind); the equivalence lemmas coq/Proofs/GenEquiv*.v are re-checked by coqc on every run; LENS MODE (the `&mut` walks of "
+    "str::split_at is modelled with BOTH its panics (out of range, and off a char boundary by core's byte-level test); the char-boundary panics of `&s[a..b]` on str, String::insert / remove / split_off are not part of the primitives the generated functions call, but Properties/C01_boundary.v proves that on well-formed UTF-8 the faithful primitives (with that panic) coincide with them at 0, len, at and one past every ASCII byte - the positions the source computes - and panic inside a character (the crate only calls these at positions it has computed with find / rfind); the equivalence lemmas coq/Proofs/GenEquiv*.v are re-checked by coqc on every run; LENS MODE (the `&mut` walks of "
     "src/assign.rs, src/delete.rs and resolve_mut as a reference, coq/Generated/ScanTreeMut.v): the lens primitives of coq/GenTreePrelude.v (lens_root / lens_arr / lens_obj / "
     "lens_index / lens_get_mut / lens_entry / lens_set) as the meaning of `&mut doc`, a Value::Array / Object / Table pattern under a reference, `&mut a[i]`, Map::get_mut, Map::entry "
     "(Occupied::into_mut / Vacant::insert) and of the writes mem::replace / Vec::push / Vec::remove / Map::remove / Map::insert through one; the translator's path-sensitive staleness "
@@ -108,7 +108,7 @@ PROPERTIES = {
     "C01": {
         "regen": {"groups": ["Pointer", "Token", "PtrOps", "Slice", "Buf", "PtrBuild"]},
         "technique": REGEN_TECHNIQUE,
-        "extra_theorem_files": ["Properties/C01_utf8.v"],
+        "extra_theorem_files": ["Properties/C01_utf8.v", "Properties/C01_boundary.v"],
         "level_suffix": regen_note("the parser, the token constructors, every accessor / splitter / slicer, the two-pointer operations, the builders and all PointerBuf mutators (Properties/C01_src.v: what they return or leave behind for valid inputs is valid RFC 6901 text)") + " UTF-8 LAYER (Properties/C01_utf8.v): with utf8_valid = the Unicode Standard's Table 3-7 (Rust's str validity), every constructor, accessor, slicer, two-pointer operation and every "
                         "finite history of the seven mutators maps well-formed UTF-8 to well-formed UTF-8 - the logical precondition of each internal from_utf8_unchecked / new_unchecked (their UB-freedom itself is not covered).",
         "runs": [{"suite": s_} for s_ in ("token", "parse", "tokens", "buf", "slice", "prefix", "conv")],
